@@ -26,7 +26,7 @@ Tr == Traces[tid]
 \* the initial tree: function from directory paths to [dirs, files]
 TreeOf(t) == [p \in {n.path : n \in ToSet(t.tree)} |-> LET n == CHOOSE n \in ToSet(t.tree) : n.path = p IN [dirs |-> ToSet(n.dirs), files |-> ToSet(n.files)]]
 PatsOf(t) == {[txt |-> p.txt, comp |-> ToSet(p.comp), dironly |-> p.dironly, abs |-> p.abs, parent |-> p.parent] : p \in ToSet(t.cfg.pats)}
-CfgOf(t) == [pats |-> PatsOf(t), recursive |-> t.cfg.recursive, auto |-> t.cfg.auto, sep |-> t.cfg.sep,
+CfgOf(t) == [pats |-> PatsOf(t), recursive |-> t.cfg.recursive, auto |-> t.cfg.auto, sep |-> t.cfg.sep, follow |-> FALSE,
              out |-> [kind |-> t.cfg.out.kind, inside |-> t.cfg.out.kind \in {"top", "sub"}, path |-> t.cfg.out.path]]
 
 TInit == /\ tid \in 1..Len(Traces) /\ l = 1 /\ rejs = 0
